@@ -106,8 +106,8 @@ Definition entry_model (ps : list vparams) (c : ctx) (x : expr) (e i : N) : N :=
     (* constructor stream (verif-harness validate ctors): 28 = Wsh::new_sortedmulti (c = Segwitv0) /
        Sh::new_sortedmulti (c = Legacy) and the Descriptor:: shorthands, 29 = Sh::new_wsh_sortedmulti;
        33 = Pkh::new, 34 = Wpkh::new / Sh::new_wpkh, 35 = Tr::new(key, None) on the first key *)
-    | 28 => new_sortedmulti_prefix c x
-    | 29 => new_sortedmulti_prefix CSegwitv0 x
+    | 28 => new_sortedmulti c x
+    | 29 => new_sortedmulti CSegwitv0 x
     | 36 => new_sortedmulti c x   (* Wsh|Sh|Bare::new(Miniscript::from_ast(Terminal::(Sorted)Multi(thresh))?) *)
     | 33 => key_ctor CBare (first_key x)
     | 34 => key_ctor CSegwitv0 (first_key x)
